@@ -1258,8 +1258,10 @@ class PhasedVcfWriter(VcfAugmenter):
                         else None
                     )
                     self._set_phasing_tags(call, components[pos], phases[pos], haploid_component)
-                else:
-                    # Unphased
+                elif self.tag in record.format:
+                    # Unphased: clear a value left over from the input or set for another sample.
+                    # (Assigning None to a String tag that no call of the record carries makes
+                    # htslib emit a NUL byte, which renders the output unreadable.)
                     call[self.tag] = None
             prev_pos = pos
         return genotype_changes
